@@ -67,8 +67,8 @@
 (* all guarded by target \in HLOTargets: TypeNames / WildKinds branches,   *)
 (* RowValH (ScalarLike / ConstantLike rows, named constants matched by     *)
 (* NAME), NodeValH, ConstDenotesH (the text's number converted to the      *)
-(* node's element format), and Verdict (the body of RunProgram as an       *)
-(* operator of its own, so that a target may post-process denotations).    *)
+(* node's element format), and ProgramVerdict (the body of RunProgram as   *)
+(* an operator of its own, so that a target may post-process denotations). *)
 (***************************************************************************)
 EXTENDS IEEE, FiniteSets, TLC
 
@@ -719,8 +719,8 @@ SingleAssignmentFails(prog) ==
 
 \* Verdict of the machine on a whole program: [fails |-> set of <<clause, row, what>>, ds |-> the
 \* denotation of every row].  root: the node the program must return.
-\* (Verdict: the statements judged over the denotations st of all rows)
-Verdict(cx, st, root) ==
+\* (ProgramVerdict: the statements judged over the denotations st of all rows)
+ProgramVerdict(cx, st, root) ==
   LET target == cx.target
       nodes == cx.nodes
       prog == cx.prog
@@ -753,7 +753,7 @@ Verdict(cx, st, root) ==
                  \cup (IF nret # 1 \/ prog.stmts[Len(prog.stmts)].op # "return" THEN {Fail("return_root", 0, "no single final return")} ELSE {})]
 RunProgram(target, nodes, root, impl, prog) ==
   LET cx == Context(target, nodes, impl, prog)
-  IN  Verdict(cx, DenAll(cx, [ds |-> <<>>, pf |-> <<>>], 1), root)
+  IN  ProgramVerdict(cx, DenAll(cx, [ds |-> <<>>, pf |-> <<>>], 1), root)
 
 \* impl table of a graph for one of the three executable targets: wild-carded kinds use the
 \* pattern handed in (the package's own template, parsed), everything else the table above
